@@ -12,7 +12,7 @@ THEOREMS = ['T4Spec.error_eq_value_times_sigma', 'T4Spec.energy_bins_increasing'
             'T4Spec.orient_edges', 'T4Spec.orient_cells', 'T4Spec.decreasing_iff', 'T4Spec.convert_energy_axis', 'T4Spec.convert_single', 'T4Spec.fillRows_single',
             'T4Spec.all_axes_score_attached', 'T4Spec.axis_bins_increasing', 'T4Spec.time_edges_collected',
             'T4Spec.score_at_cursor', 'T4Spec.fill_cells', 'T4Spec.convert_ok',
-            'T4Spec.grid_scores_attached', 'T4Spec.grid_fill_returns', 'T4Spec.fillRows_succeeds', 'T4Spec.cursors_blocks', 'T4Spec.cursors_blocks_nodup', 'T4Spec.nbBins_blocks']
+            'T4Spec.grid_scores_attached', 'T4Spec.grid_fill_returns', 'T4Spec.grid_convert_returns', 'T4Spec.grid_read', 'T4Spec.muKeys_grid', 'T4Spec.phiKeys_grid', 'T4Spec.fillRows_succeeds', 'T4Spec.cursors_blocks', 'T4Spec.cursors_blocks_nodup', 'T4Spec.nbBins_blocks']
 BUDGET = {'quick': 700, 'thorough': 12000}
 TIME_LIMIT = {'quick': 58, 'thorough': 1200}
 RULE = ('five streams. (unit, 70%) token lists as the grammar hands them to the builders: 1-6 energy groups, optional time steps / '
